@@ -145,29 +145,32 @@ ATTRS = ['a', 'b', 'c', 'x', 'y']
 LEAVES = [1, 0, -5, 2.5, 'leaf', '', None, True, b'by']
 
 
-def gen_recipe(rng, depth, path_only_keys=False, width=3, shared=None):
+def gen_recipe(rng, depth, path_only_keys=False, width=3, shared=None, faults=False):
     """recipe: ('leaf', v) | ('dict'|'odict'|'logdict', [(k, r)...]) | ('list'|'tuple'|'loglist', [r...])
                | ('obj'|'logobj'|'slot', [(name, r)...]) | ('nt', [r, r]) | ('ref', i)"""
     if depth <= 0 or rng.random() < 0.18:
         return ('leaf', rng.choice(LEAVES))
     if shared is not None and shared and rng.random() < 0.12:
         return ('ref', rng.randrange(len(shared)))
-    kind = rng.choice(['dict', 'dict', 'odict', 'logdict', 'list', 'list', 'tuple', 'loglist',
-                       'obj', 'logobj', 'slot', 'nt', 'empty'])
+    kinds = ['dict', 'dict', 'odict', 'logdict', 'list', 'list', 'tuple', 'loglist',
+             'obj', 'logobj', 'slot', 'nt', 'empty']
+    if faults:
+        kinds += ['faultdict', 'faultlist', 'faultobj', 'dict', 'list', 'obj']
+    kind = rng.choice(kinds)
     n = rng.randint(1, width)
-    sub = lambda: gen_recipe(rng, depth - 1, path_only_keys, width, shared)
+    sub = lambda: gen_recipe(rng, depth - 1, path_only_keys, width, shared, faults)
     if kind == 'empty':
         return (rng.choice(['dict', 'list', 'tuple', 'odict']), [])
-    if kind in ('dict', 'odict', 'logdict'):
+    if kind in ('dict', 'odict', 'logdict', 'faultdict'):
         pool = STR_KEYS + (PATH_ONLY_KEYS if path_only_keys else [])
         keys = []
         for k in rng.sample(pool, min(n, len(pool))):
             if not any(k == k2 for k2 in keys):  # (True == 1, 0 == False)
                 keys.append(k)
         r = (kind, [(k, sub()) for k in keys])
-    elif kind in ('list', 'tuple', 'loglist'):
+    elif kind in ('list', 'tuple', 'loglist', 'faultlist'):
         r = (kind, [sub() for _ in range(n)])
-    elif kind in ('obj', 'logobj'):
+    elif kind in ('obj', 'logobj', 'faultobj'):
         r = (kind, [(a, sub()) for a in rng.sample(ATTRS, min(n, len(ATTRS)))])
     elif kind == 'slot':
         r = (kind, [(a, sub()) for a in rng.sample(['p', 'q', 'r'], min(n, 3))])
@@ -196,6 +199,15 @@ def build(recipe, shared_objs=None, shared_recipes=None):
         return OrderedDict((k, b(r)) for k, r in body)
     if kind == 'logdict':
         return LogDict((k, b(r)) for k, r in body)
+    if kind == 'faultdict':
+        from .mutmodel import FaultDict
+        return FaultDict((k, b(r)) for k, r in body)
+    if kind == 'faultlist':
+        from .mutmodel import FaultList
+        return FaultList([b(r) for r in body])
+    if kind == 'faultobj':
+        from .mutmodel import FaultObj
+        return FaultObj(**{k: b(r) for k, r in body})
     if kind == 'list':
         return [b(r) for r in body]
     if kind == 'loglist':
@@ -220,8 +232,8 @@ def children(obj):
     if isinstance(obj, (list, tuple)):
         it = list.__iter__(obj) if isinstance(obj, list) else tuple.__iter__(obj)
         return [(i, v) for i, v in enumerate(it)]
-    if isinstance(obj, (PlainObj, LogObj)):
-        return [(k, v) for k, v in object.__getattribute__(obj, '__dict__').items() if k != '_log']
+    if isinstance(obj, (PlainObj, LogObj)) or type(obj).__name__ == 'FaultObj':
+        return [(k, v) for k, v in object.__getattribute__(obj, '__dict__').items() if k not in ('_log', '_fail')]
     if isinstance(obj, SlotObj):
         return [(k, getattr(obj, k)) for k in SlotObj.__slots__ if hasattr(obj, k)]
     return []
